@@ -7,7 +7,7 @@ import numpy as np
 
 sys.path.insert(0, __file__.rsplit("/bounded/", 1)[0])
 from bounded.common import Result, guarded  # noqa: E402
-from bounded.c07_util import pmap  # noqa: E402
+from bounded.c07_util import pmap_isolated, preimport  # noqa: E402
 
 FIT_CDC = "R{R=90}(R{R=150}C{C=2e-5})(R{R=400}Q{Y=2e-4,n=0.8})"
 
@@ -268,7 +268,7 @@ COST = {"zhit:weights:Z:auto:auto": 8, "zhit:weights:Z:auto:makima": 3, "explo:r
 def main(a):
     import pyimpspec  # noqa
     thorough = a.tier != "quick"
-    sizes = (8, 9, 11, 13, 16, 20, 25) if thorough else (8, 13, 25)
+    sizes = (8, 10, 13, 18, 25) if thorough else (8, 13, 25)
     dvs_masked = [("clean", "desc"), ("nan", "desc"), ("huge", "desc"), ("clean", "asc"), ("nan", "asc")] + ([("huge", "asc")] if thorough else [])
     dvs_unmasked = [("clean", "desc"), ("clean", "asc")]
     variants = [i for i, v in enumerate(V) if thorough or v["tier"] == "quick"]
@@ -291,7 +291,8 @@ def main(a):
                  "residual data in percent, pseudo chi-squared, circuit impedances), inputs compared before/after, deterministic variants compared with the run on "
                  "the clean descending data; non-trivial = the call returned at least one result object")
     jobs.sort(key=lambda j: -COST.get(V[j[4]]["name"], 1) * j[1])     # expensive calls first
-    recs = pmap(run_one, jobs)
+    preimport()
+    recs = pmap_isolated(run_one, jobs)       # a fresh process per call: all data variants start from the same process state
     refs = {(r["arg"][0], r["arg"][1], r["arg"][3], r["arg"][4]): r for r in recs if r["arg"][5] == ("clean", "desc")}
     notes, per = {}, {}
     for rec in recs:
@@ -301,7 +302,7 @@ def main(a):
         if dv != ("clean", "desc") and ref["exc"] is None and not (ref["fails"] and ref["nres"] == 0):
             f, Z, cdc = spectrum(kind, N, seed)
             desc = describe(kind, cdc, N, mask, v, dv)
-            if rec["exc"] is not None:
+            if rec["exc"] is not None and v["det"]:      # (randomised methods may fail on their own; they are never compared across runs)
                 rec["fails"].append((f"{v['fn']}:masked-points-influence:exception", v["fn"],
                                      f"{desc}: raised {rec['exc'][0]}: {rec['exc'][1]}, while the same call on the clean descending data set returned a result",
                                      repro_src(v, f, Z, mask, dv, "never")))
